@@ -88,7 +88,8 @@ def replay_cmd(pid, path):
 
 def run(pid, tier, seed):
   ev = common.Evidence(pid, "exploration", tier, seed)
-  args = [(fx, k, mode, s1, seed, ms) for (fx, k, mode, s1, ms) in plan(tier)]
+  pl = plan(tier)
+  args = [(fx, k, mode, s1, seed, common.fit_cap(ms, len(pl), tier)) for (fx, k, mode, s1, ms) in pl]
   results = common.pmap(run_shard, args)
   runs = nontriv = queries = 0
   solver_s = 0.0
